@@ -1,4 +1,5 @@
 pub mod c01;
+pub mod c02;
 pub mod c16;
 pub mod c17;
 pub mod c18;
@@ -18,6 +19,7 @@ pub fn dispatch(id: &str, tier: Tier, replay_file: Option<&Path>) -> i32 {
     }
     match id {
         "C01" => go!(c01),
+        "C02" => go!(c02),
         "C16" => go!(c16),
         "C17" => go!(c17),
         "C18" => go!(c18),
